@@ -130,18 +130,27 @@ func (svr *Server) ListenAndServe(uri string) error {
 		return err
 	}
 
-	svr.ln, err = net.Listen(u.Scheme, u.Host)
+	ln, err := net.Listen(u.Scheme, u.Host)
 	if err != nil {
 		return err
 	}
-	defer svr.ln.Close()
+	defer ln.Close()
+
+	// Close runs in another goroutine. If it has run already it found no listener
+	// to close, and nothing would ever end the accept loop below.
+	svr.mu.Lock()
+	svr.ln = ln
+	svr.mu.Unlock()
+	if svr.closing() {
+		return nil
+	}
 
 	log.Trace("Listening for MQTT connections")
 
 	var tempDelay time.Duration // how long to sleep on accept failure
 
 	for {
-		conn, err := svr.ln.Accept()
+		conn, err := ln.Accept()
 
 		if err != nil {
 			// http://zhen.org/blog/graceful-shutdown-of-go-net-dot-listeners/
@@ -188,18 +197,26 @@ func (svr *Server) ListenAndServeTLS(uri string, cfg *tls.Config) error {
 		return err
 	}
 
-	svr.lntls, err = tls.Listen(u.Scheme, u.Host, cfg)
+	ln, err := tls.Listen(u.Scheme, u.Host, cfg)
 	if err != nil {
 		return err
 	}
-	defer svr.lntls.Close()
+	defer ln.Close()
+
+	// See ListenAndServe.
+	svr.mu.Lock()
+	svr.lntls = ln
+	svr.mu.Unlock()
+	if svr.closing() {
+		return nil
+	}
 
 	log.Trace("Listening for Secure MQTT connections")
 
 	var tempDelay time.Duration // how long to sleep on accept failure
 
 	for {
-		conn, err := svr.lntls.Accept()
+		conn, err := ln.Accept()
 
 		if err != nil {
 			// http://zhen.org/blog/graceful-shutdown-of-go-net-dot-listeners/
@@ -335,11 +352,14 @@ func (svr *Server) Close() error {
 
 	// We then close the net.Listener, which will force Accept() to return if it's
 	// blocked waiting for new connections.
-	if svr.ln != nil {
-		svr.ln.Close()
+	svr.mu.Lock()
+	ln, lntls := svr.ln, svr.lntls
+	svr.mu.Unlock()
+	if ln != nil {
+		ln.Close()
 	}
-	if svr.lntls != nil {
-		svr.lntls.Close()
+	if lntls != nil {
+		lntls.Close()
 	}
 
 	// Stop all services at the same time: a service whose processor is blocked
